@@ -2028,6 +2028,14 @@ func createRoutingKey(routingKeyInfo *routingKeyInfo, values []interface{}) ([]b
 		return nil, nil
 	}
 
+	for _, index := range routingKeyInfo.indexes {
+		if index < 0 || index >= len(values) {
+			// fewer values were bound than the statement has partition key
+			// markers; executing the statement reports the exact mismatch
+			return nil, fmt.Errorf("gocql: routing key needs bound value %d, only %d values are bound", index, len(values))
+		}
+	}
+
 	if len(routingKeyInfo.indexes) == 1 {
 		// single column routing key
 		routingKey, err := Marshal(
